@@ -15,22 +15,6 @@ it is kept as it is (watched globals, up-to-timeout, pins live there).
 namespace DarkluaModel.Sem.HeapU
 variable {N : NumOps}
 
-/-- context of a development (as in stage 3): watched global names with facts about their values, closure facts,
-the class of dead sets, up-to-timeout, and an assumption on the call handler that may mention the oracle and the
-level (so that a leaf can unfold the call of a known closure; also the place for a class of number systems) -/
-structure Cx where
-  W : List String := []
-  G : (N : NumOps) → List (String × Val N) := fun _ => []
-  sub : ∀ N p, p ∈ G N → p.1 ∈ W := by intros; simp_all
-  Dok : List DName → Prop := fun _ => True
-  upto : Bool := false
-  F : List (String × FnBody) := []
-  subF : ∀ p, p ∈ F → p.1 ∈ W := by intros; simp_all
-  CF : (N : NumOps) → ExtOracle N → Nat → CallFn N → Prop := fun _ _ _ _ => True
-
-/-- the empty context -/
-def Cx.none : Cx := {}
-
 /-- three partial injections (cells, tables, closures), each with a FRONTIER `(xL, xR)`: an extension may
 only add pairs at or beyond the frontier, so an object below it that is unrelated stays unrelated
 through arbitrary related code (one-sided objects; allocations that happen earlier on one side than on
@@ -52,6 +36,10 @@ structure Inj (N : NumOps) where
   /-- pinned RIGHT closures, symmetrically (a closure the right allocates earlier than the left, or a helper
   closure that exists on the right only) -/
   pinFR : List (Nat × FnBody × List (String × Nat)) := []
+  /-- pinned RIGHT tables / cells with their content: one-sided objects owned by the step that allocated them;
+  related code never touches them, the owner may overwrite them (`SRel.setPinnedTR`, `SRel.setPinnedCR`) -/
+  pinTR : List (Nat × Table N) := []
+  pinCR : List (Nat × Val N) := []
 
 structure Inj.le (β β' : Inj N) : Prop where
   c : ∀ a b, β.c a b → β'.c a b
@@ -63,11 +51,13 @@ structure Inj.le (β β' : Inj N) : Prop where
   freshF : ∀ a b, β'.f a b → β.f a b ∨ (β.fL ≤ a ∧ β.fR ≤ b)
   pins : ∀ p ∈ β.pinF, p ∈ β'.pinF
   pinsR : ∀ p ∈ β.pinFR, p ∈ β'.pinFR
+  pinsTR : ∀ p ∈ β.pinTR, p ∈ β'.pinTR
+  pinsCR : ∀ p ∈ β.pinCR, p ∈ β'.pinCR
 
 theorem Inj.le_refl (β : Inj N) : β.le β :=
   ⟨fun _ _ h => h, fun _ _ h => h, fun _ _ h => h,
     ⟨Nat.le_refl _, Nat.le_refl _, Nat.le_refl _, Nat.le_refl _, Nat.le_refl _, Nat.le_refl _⟩,
-    fun _ _ h => .inl h, fun _ _ h => .inl h, fun _ _ h => .inl h, fun _ h => h, fun _ h => h⟩
+    fun _ _ h => .inl h, fun _ _ h => .inl h, fun _ _ h => .inl h, fun _ h => h, fun _ h => h, fun _ h => h, fun _ h => h⟩
 theorem Inj.le_trans {a b c : Inj N} (h1 : a.le b) (h2 : b.le c) : a.le c :=
   ⟨fun _ _ h => h2.c _ _ (h1.c _ _ h), fun _ _ h => h2.t _ _ (h1.t _ _ h), fun _ _ h => h2.f _ _ (h1.f _ _ h),
     ⟨Nat.le_trans h1.front.1 h2.front.1, Nat.le_trans h1.front.2.1 h2.front.2.1,
@@ -85,7 +75,8 @@ theorem Inj.le_trans {a b c : Inj N} (h1 : a.le b) (h2 : b.le c) : a.le c :=
       rcases h2.freshF x y h with h | h
       · exact h1.freshF x y h
       · exact .inr ⟨Nat.le_trans h1.front.2.2.2.2.1 h.1, Nat.le_trans h1.front.2.2.2.2.2 h.2⟩,
-    fun p hp => h2.pins p (h1.pins p hp), fun p hp => h2.pinsR p (h1.pinsR p hp)⟩
+    fun p hp => h2.pins p (h1.pins p hp), fun p hp => h2.pinsR p (h1.pinsR p hp),
+    fun p hp => h2.pinsTR p (h1.pinsTR p hp), fun p hp => h2.pinsCR p (h1.pinsCR p hp)⟩
 
 /-- a closure on the left that is below the frontier and unrelated: no extension ever relates it -/
 theorem Inj.le.protectedFL {β β' : Inj N} (h : β.le β') {a : Nat} (hlt : a < β.fL) (hu : ∀ b, ¬ β.f a b) :
@@ -118,6 +109,55 @@ theorem Inj.le.protectedCR {β β' : Inj N} (h : β.le β') {b : Nat} (hlt : b <
   rcases h.freshC a b ha with h1 | h1
   · exact hu a h1
   · omega
+
+/-- the part of an extension that matters for assertions about private objects: relations and frontiers grow,
+new cell / table pairs are fresh (new closure pairs need not be: closures are immutable) -/
+structure Inj.ext (β β' : Inj N) : Prop where
+  c : ∀ a b, β.c a b → β'.c a b
+  t : ∀ a b, β.t a b → β'.t a b
+  f : ∀ a b, β.f a b → β'.f a b
+  front : β.cL ≤ β'.cL ∧ β.cR ≤ β'.cR ∧ β.tL ≤ β'.tL ∧ β.tR ≤ β'.tR ∧ β.fL ≤ β'.fL ∧ β.fR ≤ β'.fR
+  freshC : ∀ a b, β'.c a b → β.c a b ∨ (β.cL ≤ a ∧ β.cR ≤ b)
+  freshT : ∀ a b, β'.t a b → β.t a b ∨ (β.tL ≤ a ∧ β.tR ≤ b)
+
+theorem Inj.le.toExt {β β' : Inj N} (h : β.le β') : β.ext β' := ⟨h.c, h.t, h.f, h.front, h.freshC, h.freshT⟩
+theorem Inj.ext.refl (β : Inj N) : β.ext β := (Inj.le_refl β).toExt
+
+/-- **frame**: from `(σ, σ')` to `(s, s')` the PRIVATE cells and tables of `β` (below the frontier and related to
+nothing) are untouched, and closures are only added. Every generic step satisfies it (`SRel.…` lemmas). -/
+structure Frame (β : Inj N) (σ σ' s s' : State N) : Prop where
+  cL : ∀ (a : Nat) v, a < β.cL → (∀ b, ¬ β.c a b) → σ.cells[a]? = some v → s.cells[a]? = some v
+  cR : ∀ (b : Nat) v, b < β.cR → (∀ a, ¬ β.c a b) → σ'.cells[b]? = some v → s'.cells[b]? = some v
+  tL : ∀ (a : Nat) v, a < β.tL → (∀ b, ¬ β.t a b) → σ.tables[a]? = some v → s.tables[a]? = some v
+  tR : ∀ (b : Nat) v, b < β.tR → (∀ a, ¬ β.t a b) → σ'.tables[b]? = some v → s'.tables[b]? = some v
+  fL : ∀ (a : Nat) v, σ.closures[a]? = some v → s.closures[a]? = some v
+  fR : ∀ (b : Nat) v, σ'.closures[b]? = some v → s'.closures[b]? = some v
+
+theorem Frame.refl (β : Inj N) (σ σ' : State N) : Frame β σ σ' σ σ' :=
+  ⟨fun _ _ _ _ h => h, fun _ _ _ _ h => h, fun _ _ _ _ h => h, fun _ _ _ _ h => h, fun _ _ h => h, fun _ _ h => h⟩
+
+/-- context of a development (as in stage 3): watched global names with facts about their values, closure facts,
+the class of dead sets, up-to-timeout, and an assumption on the call handler that may mention the oracle and the
+level (so that a leaf can unfold the call of a known closure; also the place for a class of number systems) -/
+structure Cx where
+  W : List String := []
+  G : (N : NumOps) → List (String × Val N) := fun _ => []
+  sub : ∀ N p, p ∈ G N → p.1 ∈ W := by intros; simp_all
+  Dok : List DName → Prop := fun _ => True
+  upto : Bool := false
+  F : List (String × FnBody) := []
+  subF : ∀ p, p ∈ F → p.1 ∈ W := by intros; simp_all
+  CF : (N : NumOps) → ExtOracle N → Nat → CallFn N → Prop := fun _ _ _ _ => True
+  /-- the consumer's heap invariant: a relation between the PRIVATE parts of the two heaps (objects that are
+  related to nothing: tables / cells of different shape kept in correspondence by designated closures …). It holds
+  in every `SRel` state pair; generic code preserves it because it only changes related objects (`stable`);
+  a leaf that writes private objects re-establishes it (`SRel.privSet…`). -/
+  I : (N : NumOps) → Inj N → State N → State N → Prop := fun _ _ _ _ => True
+  stable : ∀ (N : NumOps) (β β' : Inj N) (σ σ' s s' : State N), β.ext β' → Frame β σ σ' s s' →
+    I N β σ σ' → I N β' s s' := by intros; trivial
+
+/-- the empty context -/
+def Cx.none : Cx := {}
 
 def Injective (r : Nat → Nat → Prop) : Prop := ∀ {a b a' b'}, r a b → r a' b' → (a = a' ↔ b = b')
 
@@ -298,6 +338,11 @@ structure SRel (Q : QRel) (cx : Cx) (β : Inj N) (σ σ' : State N) : Prop where
   /-- pinned left closures hold their content and are related to nothing -/
   pin : ∀ p ∈ β.pinF, σ.closures[p.1]? = some ⟨p.2.1, p.2.2, []⟩ ∧ ∀ b, ¬ β.f p.1 b
   pinR : ∀ p ∈ β.pinFR, σ'.closures[p.1]? = some ⟨p.2.1, p.2.2, []⟩ ∧ ∀ a, ¬ β.f a p.1
+  /-- pinned right tables / cells hold their content, are below the frontier and related to nothing -/
+  pinT : ∀ p ∈ β.pinTR, σ'.tables[p.1]? = some p.2 ∧ p.1 < β.tR ∧ ∀ a, ¬ β.t a p.1
+  pinC : ∀ p ∈ β.pinCR, σ'.cells[p.1]? = some p.2 ∧ p.1 < β.cR ∧ ∀ a, ¬ β.c a p.1
+  /-- the consumer's invariant on the private parts of the heaps -/
+  inv : cx.I N β σ σ'
 
 abbrev ARel (N : NumOps) (α : Type) := Inj N → α → α → Prop
 def AEq {α : Type} : ARel N α := fun _ a b => a = b
